@@ -304,6 +304,23 @@ def run(ctx, rep):
         if not ffi_sw:
             rep.ob("C19.ffi-error-stops", "Function::run: FFIError result is tested", "violated",
                    "no discriminant test for ReturnValue::FFIError on the callback's result", c.span, fn=r.path)
+        # no way out of Function::run with the callback's result before that test: with the passing (not-FFIError) edges of the test taken away,
+        # no Ok return is reachable from the point where the result arrives - a shortcut that hands the result to the caller untested would
+        # turn a foreign error into an ordinary return value
+        if ffi_sw:
+            passing = set()
+            for (bb, base, targets, otherwise) in ffi_sw:
+                for v_, tg in targets.items():
+                    if v_ != ffi_idx:
+                        passing.add((bb, tg))
+                passing.add((bb, otherwise))
+                passing.discard((bb, targets[ffi_idx]))
+            reach_untested = r.reachable(cont, removed_edges=passing)
+            early = [b for b in rules.ok_return_blocks(r) if b in reach_untested]
+            rep.ob("C19.ffi-error-stops", "Function::run: no Ok return hands the callback's result on before the FFIError test",
+                   "violated" if early else "ok", ("Ok return(s) in bb %s are reachable from the arrival of the result without passing the test: a foreign "
+                                                  "error leaves the function as an ordinary value" % early) if early else "", c.span, fn=r.path,
+                   key="C19.ffi-error-stops|no-early-ok")
         for (bb, base, targets, otherwise) in ffi_sw:
             tgt = targets[ffi_idx]
             bad = rules.blocks_calling(r, lambda cc: handler(cc) or cc.matches("bytecode::context::Ctx::push"), [tgt])
